@@ -53,7 +53,9 @@ func genC16(t *rapid.T) c16Case {
 
 // c16Policy is policy number k: the version is stamped into MaxFileSize.
 func c16Policy(k int) absnfs.PolicyOptions {
-	p := absnfs.PolicyOptions{MaxFileSize: int64(1000 + k), ReadOnly: k%2 == 1}
+	// consecutive numbers 4j..4j+1 and 4j+2..4j+3 differ in nothing but the stamp
+	// (an update that changes a single harmless-looking field must drain too)
+	p := absnfs.PolicyOptions{MaxFileSize: int64(1000 + k), ReadOnly: (k/2)%2 == 1}
 	if k%3 == 2 {
 		p.AllowedIPs = []string{"10.0.0.1"}
 	}
@@ -542,7 +544,7 @@ func runC16(tb stat.TB, c c16Case) {
 // c16Synth returns a small policy number without AllowedIPs / rate limiting and the wanted read-only flag.
 func c16Synth(ro bool) int {
 	for k := 12; ; k++ {
-		if k%3 != 2 && k%4 != 3 && (k%2 == 1) == ro {
+		if k%3 != 2 && k%4 != 3 && ((k/2)%2 == 1) == ro {
 			return k
 		}
 	}
